@@ -716,7 +716,7 @@ func processViolation(e Engine, opt *Options, c *violCase) (string, string) {
 	}
 	// 1. confirm from the seed alone (trace nil => generate) in a fresh process.
 	ok, tr2, sample, detail := reproduces(e, fresh, c, nil, false)
-	if !ok && c.death {
+	if !ok && (c.death || c.v.Statistical) {
 		// A worker death detected by an external monitor (the race detector
 		// keeps four shadow cells per word and evicts at random) may not recur
 		// on every execution of the very same schedule: re-execute up to 12
@@ -825,6 +825,14 @@ func processViolation(e Engine, opt *Options, c *violCase) (string, string) {
 		}
 		return best
 	}
+	if c.v.Statistical {
+		// recurrence is a matter of frequency: no trace minimisation; the replay
+		// regenerates the run from its seed (several times if need be)
+		if rf.Statistical == "" {
+			rf.Statistical = "reproduced at the first fresh-process execution of the same seed"
+		}
+		tr = nil
+	}
 	if tr != nil {
 		done := false
 		if !opt.NoShrink {
@@ -870,7 +878,7 @@ func processViolation(e Engine, opt *Options, c *violCase) (string, string) {
 				return "", "second replay from seed failed"
 			}
 		}
-		rf.Note = "worker death: replay regenerates the run from run_seed"
+		rf.Note = "replay regenerates the run from run_seed"
 	}
 	if c.payload != nil {
 		rf.Payload = hex.EncodeToString(c.payload)
